@@ -333,8 +333,16 @@ def step(ctx, s, m, pos, st, case, cname):
         outs = [('slice', lambda: s[1:]), ('fullslice', lambda: s[:]), ('stepslice', lambda: s[::2]), ('add', lambda: s + s),
                 ('add-str', lambda: s + '0b1'), ('radd', lambda: '0b1' + s), ('mul', lambda: s * 2), ('copy.copy', lambda: copy.copy(s)),
                 ('cut', lambda: next(iter(s.cut(3)), None)), ('split', lambda: next(iter(s.split('0b11')), None)),
-                ('join', lambda: s.join(['0b1', '0b0'])), ('unpack-bits', lambda: s.unpack('bits')[0])]
+                ('join', lambda: s.join(['0b1', '0b0'])), ('unpack-bits', lambda: s.unpack('bits')[0]),
+                # operands and factors that make the result equal to the receiver (or empty): still a new stream at pos 0, receiver untouched
+                ('add-empty-str', lambda: s + ''), ('add-empty-bits', lambda: s + Bits()), ('add-empty-list', lambda: s + []), ('add-empty-bytes', lambda: s + b''),
+                ('add-empty-stream', lambda: s + type(s)()), ('radd-empty', lambda: '' + s), ('radd-empty-list', lambda: [] + s), ('mul1', lambda: s * 1), ('rmul1', lambda: 1 * s),
+                ('mul0', lambda: s * 0), ('slice-none', lambda: s[L:]), ('slice-neg-step', lambda: s[::-1]), ('copy()', lambda: s.copy()),
+                ('join-one', lambda: type(s)().join([s])), ('cut-all', lambda: next(iter(s.cut(max(L, 1))), None)),
+                ('split-nohit', lambda: next(iter(s.split('0x' + 'f0e1d2c3b4a59687' * 3)), None))]
         if L:
+            outs += [('lshift0', lambda: s << 0), ('rshift0', lambda: s >> 0), ('lshift-all', lambda: s << L), ('and-ones', lambda: s & ('0b' + '1' * L)),
+                     ('or-zeros', lambda: s | Bits(L)), ('xor-zeros', lambda: s ^ Bits(L))]
             outs += [('invert', lambda: ~s), ('lshift', lambda: s << 1), ('rshift', lambda: s >> 1), ('and-other', lambda: s & mk(Bits, m)),
                      ('or-other', lambda: s | mk(Bits, m)), ('xor', lambda: s ^ s), ('and-self', lambda: s & s), ('or-self', lambda: s | s)]
         for name, f in outs:
